@@ -12,7 +12,7 @@ EXPLANATION = (
     "push_int64 (-1, 1..16 -> n + (OP_1-1); 0 -> OP_0), CheckMinimalPush's single-byte cases (1..16, 0x81) and the interpreter's decode "
     "(opcode - (OP_1-1)) use the same range and offset, and the opcode bytes are the consensus ones. Tokenisation, bracket nesting, "
     "literal classification and the short-hex-literal clause are value-level and NOT decided.")
-TRUSTED = ["clang 14 parser/Sema/constant evaluator", "/verif extractor"]
+TRUSTED = ["clang 14 parser/Sema/constant evaluator", "/verif extractor", "/verif term evaluator G-SYM (checker/symx.py): inlining, loop summaries relative to prev, linear normal form; casts between integer types are treated as value-preserving"]
 ASSUMPTIONS = ["opcode byte values are taken from the compiler's evaluation of the enumerators"]
 DECLINED = ["tokenisation / comments / bracket nesting", "classification of literals (decimal vs hex vs string)", "hex literals shorter than 5 bytes are re-read as numbers (value-level; the suite pins this behaviour)"]
 
@@ -36,16 +36,6 @@ def chain_arms(func, head):
             nxt = None
         cur = nxt
     return out
-
-
-def size_threshold(cond, subj_pred):
-    """max value admitted by `subj < K` / `subj <= K` (K compiler-evaluated), else None"""
-    for c in S.conjuncts(cond):
-        if c is not None and c.get("k") == "bin" and c["op"] in ("<", "<=") and subj_pred(c["lhs"]):
-            K = astq.const_value(c["rhs"])
-            if K is not None:
-                return K - 1 if c["op"] == "<" else K
-    return None
 
 
 def run(ctx, anchors=None):
